@@ -37,12 +37,22 @@ class _PlainKeywords(ast.NodeTransformer):
                 else:
                     kws.append(k)
             node.keywords = kws
+        # dict(a=x, b=y) is the display {"a": x, "b": y}
+        if self.dict_is_builtin and isinstance(node.func, ast.Name) and node.func.id == "dict" and not node.args and node.keywords \
+                and all(k.arg is not None for k in node.keywords):
+            return ast.copy_location(ast.Dict(keys=[ast.copy_location(ast.Constant(value=k.arg), k.value) for k in node.keywords],
+                                              values=[k.value for k in node.keywords]), node)
         return node
 
 
 def _plain_keywords(tree):
     try:
-        return ast.fix_missing_locations(_PlainKeywords().visit(tree))
+        tr = _PlainKeywords()
+        tr.dict_is_builtin = not any((isinstance(x, ast.Name) and x.id == "dict" and isinstance(x.ctx, ast.Store))
+                                     or (isinstance(x, ast.arg) and x.arg == "dict")
+                                     or (isinstance(x, (ast.FunctionDef, ast.ClassDef)) and x.name == "dict")
+                                     or (isinstance(x, ast.alias) and (x.asname or x.name) == "dict") for x in ast.walk(tree))
+        return ast.fix_missing_locations(tr.visit(tree))
     except Exception:  # noqa: BLE001
         return tree
 
